@@ -8,10 +8,69 @@ From Verif Require Import PyStr Util UtilGen UtilProofs Tmpl HtmlRender TmplChec
 Import ListNotations.
 Open Scope Z_scope.
 
+Lemma digits_aux_free : forall fuel n acc, special_free acc -> special_free (digits_aux fuel n acc).
+Proof.
+  induction fuel as [|k IH]; intros n acc Ha; cbn [digits_aux]; [exact Ha|].
+  assert (Hc : special_free ((48 + n mod 10) :: acc)).
+  { constructor; [|exact Ha]. pose proof (Z.mod_pos_bound n 10 ltac:(lia)). lia. }
+  destruct (n / 10 =? 0); [exact Hc|apply IH; exact Hc].
+Qed.
+
+Lemma str_of_Z_free z : special_free (str_of_Z z).
+Proof. unfold str_of_Z. destruct (z <? 0); [constructor; [lia|]|]; apply digits_aux_free; constructor. Qed.
+
+Lemma free_None : special_free [78; 111; 110; 101].
+Proof. repeat constructor; lia. Qed.
+Lemma free_True : special_free [84; 114; 117; 101].
+Proof. repeat constructor; lia. Qed.
+Lemma free_False : special_free [70; 97; 108; 115; 101].
+Proof. repeat constructor; lia. Qed.
+
+Lemma pv_safe_free v : (match v with PStr _ => False | _ => True end) -> special_free (pv_str v).
+Proof. destruct v as [s| |[|]|z]; cbn; intros H; [contradiction|apply free_None|apply free_True|apply free_False|apply str_of_Z_free]. Qed.
+
+Definition tok_children (t : tok) : list tok :=
+  match t with TEmphasis ch | TStrong ch | TLink _ ch _ _ _ _ | TExt _ ch => ch | _ => [] end.
+
+Fixpoint tsize (t : tok) : nat :=
+  match t with
+  | TEmphasis ch | TStrong ch | TLink _ ch _ _ _ _ | TExt _ ch => S (list_sum (map tsize ch))
+  | _ => 1%nat
+  end.
+
+Lemma in_tsize x l : In x l -> (tsize x <= list_sum (map tsize l))%nat.
+Proof.
+  induction l as [|y l IH]; [intros []|]. change (list_sum (map tsize (y :: l))) with (tsize y + list_sum (map tsize l))%nat.
+  intros [->|H]; [lia|]. specialize (IH H). lia.
+Qed.
+
+Definition node_children (n : node) : list node :=
+  match n with NQuote ch | NListItem ch => ch | NList items _ _ _ _ _ => items | _ => [] end.
+Definition node_toks (n : node) : list tok :=
+  match n with NHeading ch _ _ | NParagraph ch | NBlockText ch => ch | _ => [] end.
+Fixpoint nsize (n : node) : nat :=
+  match n with
+  | NQuote ch | NListItem ch => S (list_sum (map nsize ch))
+  | NList items _ _ _ _ _ => S (list_sum (map nsize items))
+  | _ => 1%nat
+  end.
+
+Lemma in_nsize x l : In x l -> (nsize x <= list_sum (map nsize l))%nat.
+Proof.
+  induction l as [|y l IH]; [intros []|]. change (list_sum (map nsize (y :: l))) with (nsize y + list_sum (map nsize l))%nat.
+  intros [->|H]; [lia|]. specialize (IH H). lia.
+Qed.
+
+
 Section DocSafe.
 Variable E : renv.
 Variable ops : list esc_op.
+Variable xt : str -> template.
 Hypothesis Hesc : r_escape E = true.
+(* plugin render functions take the rendered children as their only argument and insert them unfiltered *)
+Hypothesis xt_in : forall name, In (xt name, [KHtml], []) all_templates.
+Hypothesis xt_atoms : forall name, t_atoms (xt name) = [].
+Hypothesis xt_plain : forall name p fs, In (SIns p fs) (eval (t_body (xt name)) []) -> fs = [].
 (* the per-template theorem (instantiated in Props/C02.v from the regenerated templates) *)
 Hypothesis template_theorem : forall t sig fixed vals,
   In (t, sig, fixed) all_templates -> vals_ok sig vals ->
@@ -56,27 +115,6 @@ Proof.
   - unfold frag, render. rewrite <- (run_pieces_hrun sig vals). exact H2.
 Qed.
 
-Lemma digits_aux_free : forall fuel n acc, special_free acc -> special_free (digits_aux fuel n acc).
-Proof.
-  induction fuel as [|k IH]; intros n acc Ha; cbn [digits_aux]; [exact Ha|].
-  assert (Hc : special_free ((48 + n mod 10) :: acc)).
-  { constructor; [|exact Ha]. pose proof (Z.mod_pos_bound n 10 ltac:(lia)). lia. }
-  destruct (n / 10 =? 0); [exact Hc|apply IH; exact Hc].
-Qed.
-
-Lemma str_of_Z_free z : special_free (str_of_Z z).
-Proof. unfold str_of_Z. destruct (z <? 0); [constructor; [lia|]|]; apply digits_aux_free; constructor. Qed.
-
-Lemma free_None : special_free [78; 111; 110; 101].
-Proof. repeat constructor; lia. Qed.
-Lemma free_True : special_free [84; 114; 117; 101].
-Proof. repeat constructor; lia. Qed.
-Lemma free_False : special_free [70; 97; 108; 115; 101].
-Proof. repeat constructor; lia. Qed.
-
-Lemma pv_safe_free v : (match v with PStr _ => False | _ => True end) -> special_free (pv_str v).
-Proof. destruct v as [s| |[|]|z]; cbn; intros H; [contradiction|apply free_None|apply free_True|apply free_False|apply str_of_Z_free]. Qed.
-
 (* children of a template whose KHtml parameter is p0 with value a fragment *)
 Lemma children_ok_of sig vals segs : (forall p, nth p sig KRaw = KHtml -> frag (pv_str (nth p vals PNone))) ->
   (forall p fs, In (SIns p fs) segs -> nth p sig KRaw = KHtml -> fs = []) ->
@@ -107,40 +145,25 @@ Ltac no_html p Hk := do 4 (destruct p as [|p]; [cbn in Hk; try discriminate Hk|]
 Ltac in_templates := unfold all_templates; repeat (first [left; reflexivity | right]).
 
 (* ---- inline tokens ---- *)
-Definition tok_children (t : tok) : list tok :=
-  match t with TEmphasis ch | TStrong ch | TLink _ ch _ _ _ _ => ch | _ => [] end.
-
 Inductive tok_safe : tok -> Prop :=
 | tok_safe_intro t : (forall c, In c (tok_children t) -> tok_safe c) ->
-                     pieces_ok (tok_args (flat_map (html_tok E ops) (tok_children t)) t) -> tok_safe t.
+                     pieces_ok (tok_args xt (flat_map (html_tok E ops xt) (tok_children t)) t) -> tok_safe t.
 
-Fixpoint tsize (t : tok) : nat :=
-  match t with
-  | TEmphasis ch | TStrong ch | TLink _ ch _ _ _ _ => S (list_sum (map tsize ch))
-  | _ => 1%nat
-  end.
-
-Lemma in_tsize x l : In x l -> (tsize x <= list_sum (map tsize l))%nat.
-Proof.
-  induction l as [|y l IH]; [intros []|]. change (list_sum (map tsize (y :: l))) with (tsize y + list_sum (map tsize l))%nat.
-  intros [->|H]; [lia|]. specialize (IH H). lia.
-Qed.
-
-Lemma html_tok_unfold t : html_tok E ops t = render E ops (fst (tok_args (flat_map (html_tok E ops) (tok_children t)) t)) (snd (tok_args (flat_map (html_tok E ops) (tok_children t)) t)).
+Lemma html_tok_unfold t : html_tok E ops xt t = render E ops (fst (tok_args xt (flat_map (html_tok E ops xt) (tok_children t)) t)) (snd (tok_args xt (flat_map (html_tok E ops xt) (tok_children t)) t)).
 Proof. destruct t; reflexivity. Qed.
 
 Lemma shape_text_allowed vals : shape_allowed [(0%nat, true)] (shape_of E ops [AEscapeFlag] vals) = true.
 Proof. cbn. rewrite Hesc. reflexivity. Qed.
 
-Lemma tok_ok_n : forall n t, (tsize t <= n)%nat -> tok_safe t /\ frag (html_tok E ops t).
+Lemma tok_ok_n : forall n t, (tsize t <= n)%nat -> tok_safe t /\ frag (html_tok E ops xt t).
 Proof.
   induction n as [|n IH]; intros t Hn; [destruct t; cbn in Hn; lia|].
-  assert (Hch : forall c, In c (tok_children t) -> tok_safe c /\ frag (html_tok E ops c)).
+  assert (Hch : forall c, In c (tok_children t) -> tok_safe c /\ frag (html_tok E ops xt c)).
   { intros c Hin. apply IH. pose proof (in_tsize _ _ Hin) as Hs. destruct t; cbn [tok_children] in *; try contradiction; cbn [tsize] in Hn; lia. }
-  assert (Hfrag : frag (flat_map (html_tok E ops) (tok_children t))).
+  assert (Hfrag : frag (flat_map (html_tok E ops xt) (tok_children t))).
   { apply frag_flat_map. intros c Hin. apply Hch. exact Hin. }
-  assert (Hcall : pieces_ok (tok_args (flat_map (html_tok E ops) (tok_children t)) t) /\ frag (html_tok E ops t)).
-  { rewrite html_tok_unfold. destruct t as [raw|raw|raw| | |ch|ch|img ch url title tk ref]; cbn [tok_args tok_children fst snd] in *.
+  assert (Hcall : pieces_ok (tok_args xt (flat_map (html_tok E ops xt) (tok_children t)) t) /\ frag (html_tok E ops xt t)).
+  { rewrite html_tok_unfold. destruct t as [raw|raw|raw| | |ch|ch|img ch url title tk ref|name ch]; cbn [tok_args tok_children fst snd] in *.
     - (* text *) apply (render_call_ok tmpl_html_text sig_html_text [(0%nat, true)]); [in_templates| | |apply shape_text_allowed|].
       + vals_ok_tac.
       + no_digits.
@@ -185,26 +208,27 @@ Proof.
           -- intros p Hk. destruct p as [|p]; [exact Hfrag|exfalso; no_html p Hk].
           -- intros p fs Hin Hk. destruct p as [|p]; [|exfalso; no_html p Hk].
              cbn in Hin. destruct title as [[|c0 tl]|]; cbn in Hin;
-               repeat (destruct Hin as [Hin|Hin]; [inversion Hin; subst; reflexivity|]); contradiction. }
+               repeat (destruct Hin as [Hin|Hin]; [inversion Hin; subst; reflexivity|]); contradiction.
+    - (* plugin token *) apply (render_call_ok (xt name) [KHtml] []); [apply xt_in|vals_ok_tac| |reflexivity|].
+      + intros p Hp. rewrite xt_atoms in Hp. cbn in Hp. contradiction.
+      + apply children_ok_of.
+        * intros p Hk. destruct p as [|p]; [exact Hfrag|exfalso; no_html p Hk].
+        * intros p fs Hin Hk. rewrite xt_atoms in Hin. cbn [shape_of map] in Hin. exact (xt_plain name p fs Hin). }
   split; [|apply Hcall]. constructor; [intros c Hin; apply Hch; exact Hin|apply Hcall].
 Qed.
 
-Theorem tok_tree_safe t : tok_safe t /\ frag (html_tok E ops t).
+Theorem tok_tree_safe t : tok_safe t /\ frag (html_tok E ops xt t).
 Proof. apply (tok_ok_n (tsize t)). lia. Qed.
 
-Lemma toks_frag l : frag (html_toks E ops l).
+Lemma toks_frag l : frag (html_toks E ops xt l).
 Proof. apply frag_flat_map. intros t _. apply tok_tree_safe. Qed.
 
 (* ---- block nodes ---- *)
-Definition node_children (n : node) : list node :=
-  match n with NQuote ch | NListItem ch => ch | NList items _ _ _ _ _ => items | _ => [] end.
-Definition node_toks (n : node) : list tok :=
-  match n with NHeading ch _ _ | NParagraph ch | NBlockText ch => ch | _ => [] end.
 Definition node_inner (n : node) : str :=
   match n with
-  | NHeading ch _ _ | NParagraph ch | NBlockText ch => html_toks E ops ch
-  | NQuote ch | NListItem ch => flat_map (html_node E ops) ch
-  | NList items _ _ _ _ _ => flat_map (html_node E ops) items
+  | NHeading ch _ _ | NParagraph ch | NBlockText ch => html_toks E ops xt ch
+  | NQuote ch | NListItem ch => flat_map (html_node E ops xt) ch
+  | NList items _ _ _ _ _ => flat_map (html_node E ops xt) items
   | _ => []
   end.
 
@@ -212,31 +236,18 @@ Inductive node_safe : node -> Prop :=
 | node_safe_intro n : (forall c, In c (node_children n) -> node_safe c) -> (forall t, In t (node_toks n) -> tok_safe t) ->
                       pieces_ok (node_args (node_inner n) n) -> node_safe n.
 
-Fixpoint nsize (n : node) : nat :=
-  match n with
-  | NQuote ch | NListItem ch => S (list_sum (map nsize ch))
-  | NList items _ _ _ _ _ => S (list_sum (map nsize items))
-  | _ => 1%nat
-  end.
-
-Lemma in_nsize x l : In x l -> (nsize x <= list_sum (map nsize l))%nat.
-Proof.
-  induction l as [|y l IH]; [intros []|]. change (list_sum (map nsize (y :: l))) with (nsize y + list_sum (map nsize l))%nat.
-  intros [->|H]; [lia|]. specialize (IH H). lia.
-Qed.
-
-Lemma html_node_unfold n : html_node E ops n = render E ops (fst (node_args (node_inner n) n)) (snd (node_args (node_inner n) n)).
+Lemma html_node_unfold n : html_node E ops xt n = render E ops (fst (node_args (node_inner n) n)) (snd (node_args (node_inner n) n)).
 Proof. destruct n; reflexivity. Qed.
 
-Lemma node_ok_n : forall k n, (nsize n <= k)%nat -> node_safe n /\ frag (html_node E ops n).
+Lemma node_ok_n : forall k n, (nsize n <= k)%nat -> node_safe n /\ frag (html_node E ops xt n).
 Proof.
   induction k as [|k IH]; intros n Hk; [destruct n; cbn in Hk; lia|].
-  assert (Hch : forall c, In c (node_children n) -> node_safe c /\ frag (html_node E ops c)).
+  assert (Hch : forall c, In c (node_children n) -> node_safe c /\ frag (html_node E ops xt c)).
   { intros c Hin. apply IH. pose proof (in_nsize _ _ Hin) as Hs. destruct n; cbn [node_children] in *; try contradiction; cbn [nsize] in Hk; lia. }
   assert (Hfrag : frag (node_inner n)).
   { destruct n; cbn [node_inner node_children] in *; try apply frag_nil; try apply toks_frag;
       apply frag_flat_map; intros c Hin; apply Hch; exact Hin. }
-  assert (Hcall : pieces_ok (node_args (node_inner n) n) /\ frag (html_node E ops n)).
+  assert (Hcall : pieces_ok (node_args (node_inner n) n) /\ frag (html_node E ops xt n)).
   { rewrite html_node_unfold. set (inner := node_inner n) in *. clearbody inner.
     destruct n as [| |raw fenced marker info|ch level setext|ch|ch|ch|items tight bullet depth ordered start|ch|raw]; cbn [node_args fst snd].
     - apply (render_call_ok tmpl_html_blank_line sig_html_blank_line []); [in_templates|vals_ok_tac|no_digits|reflexivity|].
@@ -282,11 +293,11 @@ Proof.
   split; [|apply Hcall]. constructor; [intros c Hin; apply Hch; exact Hin|intros t _; apply tok_tree_safe|apply Hcall].
 Qed.
 
-Theorem node_tree_safe n : node_safe n /\ frag (html_node E ops n).
+Theorem node_tree_safe n : node_safe n /\ frag (html_node E ops xt n).
 Proof. apply (node_ok_n (nsize n)). lia. Qed.
 
 (* the whole document *)
-Theorem doc_safe ns : Forall node_safe ns /\ frag (html_doc E ops ns).
+Theorem doc_safe ns : Forall node_safe ns /\ frag (html_doc E ops xt ns).
 Proof.
   split; [apply Forall_forall; intros n _; apply node_tree_safe|].
   apply frag_flat_map. intros n _. apply node_tree_safe.
